@@ -30,6 +30,8 @@ claimed = {
    text="Proof that the result of each enumeration consumer does not depend on the enumeration order (the postcondition holds for every order Go may choose and determines the observable result), and a scan showing there is no other source of nondeterminism. Known finding F8 (two records with equal field names) is excluded by an explicit carve-out precondition and reported as KNOWN-FINDING while it reproduces."),
  "C06": dict(design="§4 C06", technique="contract-based deductive verification (partial): column invariant of the tokenizer (newTkz / tkzNext) against a line_start specification function over byte-array strings, exact comparison postconditions on the offside primitives (insideOffside, isEndOfBlock, psPushOffside, psPopOffside, psCurOffside, psCurCol), scanner extent/kind contracts, plus a closed-world scan of the readers of the column and of the offside stack; one known finding (F9) carved out and re-run on the real binary",
    text="Partial. Proved for all byte strings: the column the offside rule compares is the token's byte offset in its physical line (outside the carve-out of F9), and every offside decision is a comparison of columns (so any strictly monotone re-indentation preserves every decision; a line indented less than its block ends it). NOT decided: the grammar-level layout clauses (one-line vs multi-line if, right-hand side on the next line, pipeline broken before |>), which are placements of psSkipEOL across the parser."),
+ "C11": dict(design="§4 C11", technique="contract-based deductive verification: the three literal scanners and ParseSInterP of fc/wrapper.go specified as per-character transducers over byte-array strings (escape-parity specification function for the end of a \"...\" literal; ghost offset tables for the re-escaping of `...` and for the piecewise translation of $-literals), template postconditions on sinterpToGo and on the literal arms of ExprToGo, frt.SInterP / toS contracts from C14; loop invariants, VCs discharged by z3/cvc5; counterexample byte strings read from the model and replayed on the real functions",
+   text="Proof for all byte strings that the literal scanners and ParseSInterP produce exactly the text the statement prescribes (literal ends at the first unescaped quote / first backtick; raw bodies re-escaped character by character; {name} -> %s + variable in order, \\{ \\} -> brace, % -> %%, every other byte itself) and that the emitters wrap it as documented. That Go's literal syntax and fmt.Sprintf then denote the same text is an assumption about Go, stated, not proved."),
 }
 na = {
  "C01": "whole-compiler semantic preservation needs a formal semantics of Folang and of Go plus a simulation proof through tokenizer, parser, inference and emitter; no function-level contract expresses it (DESIGN §5). Its run-time ingredients are decided under C10, C12-C14.",
